@@ -322,7 +322,8 @@ def records(ctx):
         xxs = grids_for(P, rng.randint(3, 8 if P < 3 else 5))
         sh = [len(x) for x in xxs]
         phi1, phi2 = make_phi(rng, sh, xxs), make_phi(rng, sh, xxs)
-        a, b = rng.uniform(0.1, 3), rng.uniform(0.1, 3)
+        # linear, not merely additive for non-negative weights: every second pair has a negative coefficient (signed densities)
+        a, b = rng.uniform(0.1, 3), rng.uniform(0.1, 3) * (-1 if k % 2 else 1)
         pl = [rng.choice([2, 3, 4]) for _ in range(P)]
         ns = [p * rng.randint(1, 2) for p in pl]
         inp = base_in(phi1, ns, xxs, mc=False, admix=make_admix(rng, P) if kind == 'admix' else (), force=(kind == 'direct'))
